@@ -182,6 +182,8 @@ def coverage_keys(p):
 
 
 def run(ctx):
+    from checks import isolate
+    isolate.enter(ctx)
     exe = mc.build_variant(ctx, ["json"])
     ok, problems = core.coq_audit(ctx, PROPS, THEOREMS)
     projs = gen_projects(ctx)
@@ -258,6 +260,8 @@ def run(ctx):
 
 
 def replay(ctx, path):
+    from checks import isolate
+    isolate.enter(ctx)
     obj = json.load(open(path))
     fi = obj.get("failing_input") or {}
     p = fi.get("project")
